@@ -428,3 +428,62 @@ def check_h7(cfg, run, viol, stats, sig_base, which, basis, dim):
                          "detail": {"case": case, "worst_eq": max(d[0] for row in defects for d in row), "worst_ineq": max(d[1] for row in defects for d in row), "eq_thr": eq_thr, "ineq_thr": ineq_thr},
                          "signature": dict(sig_base, oracle="H7_physicality_verdict", estimator=kind, verdict=verdict)})
             return
+
+
+def check_after_crash(cfg, ref, run, si, viol, stats, sig):
+    """fault kind crash_then_reestimate.  Relaxed oracle, stated narrowly: after a crash at a file write, re-estimation from
+    whatever survived may raise (missing or torn files), but whatever it returns must carry the estimates of the serial
+    reference for that (sample, case)."""
+    from quara.simulation import standard_qtomography_simulation as qsim
+    from quara.simulation import standard_qtomography_simulation_flow as qflow
+
+    oc, pr = stats["oracle_checks"], stats["probes"]
+    out_dir = run["out_dir"]
+    want = {}
+    for r in ref["results"]:
+        ix = r["result_index"]
+        want[(ix["sample_index"], ix["case_index"])] = r
+    ts_path = os.path.join(out_dir, "0", "test_setting.pickle")
+    # per surviving result file
+    for root, _, files in os.walk(out_dir):
+        for fn in sorted(files):
+            if not (fn.startswith("case_") and fn.endswith("_result.pickle")):
+                continue
+            oc["C1_crash_reestimate"] = oc.get("C1_crash_reestimate", 0) + 1
+            path = os.path.join(root, fn)
+            try:
+                ests = qsim.re_estimate_sequence_from_path(ts_path, path)
+                with open(path, "rb") as f:
+                    stored = pickle.load(f)
+            except Exception:
+                pr["crash_survivor_unreadable"] = pr.get("crash_survivor_unreadable", 0) + 1
+                continue
+            pr["crash_survivor_reestimated"] = pr.get("crash_survivor_reestimated", 0) + 1
+            ix = stored.result_index
+            key = (ix["sample_index"], ix["case_index"])
+            got = [[np.array(v) for v in er.estimated_var_sequence] for er in ests]
+            if key not in want:
+                viol.append({"oracle": "C1_crash_reestimate", "what": f"schedule {si}: surviving file {fn} claims result index {key} which the serial run does not have", "detail": {"schedule": si}, "signature": dict(sig, oracle="C1_crash_reestimate")})
+                return
+            d = first_diff(want[key]["estimates"], got, f"{os.path.relpath(path, out_dir)}.estimates")
+            if d:
+                viol.append({"oracle": "C1_crash_reestimate", "what": f"schedule {si}: after {run['crash']}, re-estimating the surviving {os.path.relpath(path, out_dir)} gives estimates that differ from the serial run at {d[0]} (max abs diff {d[2]})",
+                             "detail": {"schedule": si, "crash": run["crash"], "field": d[0]}, "signature": dict(sig, oracle="C1_crash_reestimate")})
+                return
+    # whole-directory re-estimation: may raise, may not invent different numbers
+    out2 = tempfile.mkdtemp(prefix="poolsim-crash-re-", dir=env.scratch_root())
+    try:
+        re = qflow.re_estimate_test_settings(out_dir, out2, pdf_mode="none", exec_sim_check=copy.deepcopy(cfg.get("exec_sim_check")))
+        pr["crash_full_reestimate_returned"] = pr.get("crash_full_reestimate_returned", 0) + 1
+        for r in re:
+            e = workload.extract_result(r)
+            key = (int(e["result_index"]["sample_index"]), int(e["result_index"]["case_index"]))
+            d = first_diff(want[key]["estimates"], e["estimates"], f"reestimated[{key}].estimates") if key in want else ("index", "unknown result index", None)
+            if d:
+                viol.append({"oracle": "C1_crash_reestimate", "what": f"schedule {si}: after {run['crash']}, re_estimate_test_settings returned different estimates at {d[0]} (max abs diff {d[2]})",
+                             "detail": {"schedule": si, "crash": run["crash"]}, "signature": dict(sig, oracle="C1_crash_reestimate", via="directory")})
+                return
+    except Exception:
+        pr["crash_full_reestimate_raised"] = pr.get("crash_full_reestimate_raised", 0) + 1
+    finally:
+        shutil.rmtree(out2, ignore_errors=True)
